@@ -65,6 +65,11 @@ func main() {
 	r.Cases("hex/positions", r.N(64, 1280), hv, hexPositionsCase)
 	r.Cases("base64", r.N(6000, 200000), hv, base64Case)
 	r.Cases("digest", r.N(10*301, 200*301), hv, digestCase)
+	// the same workload on parallel workers under the race detector: package-level state shared
+	// between instances that no goroutine shares is reported from the happens-before relation,
+	// whether or not the accesses collide in this run (and however loaded the machine is)
+	r.CasesProc("digest/race-parallel", r.N(301, 3010), ev.Opt{Bin: "race", Procs: 2, Workers: 8, AlwaysLog: true, HangViolation: true, MaxCaseSeconds: 120}, digestCase)
+	r.CasesProc("base64/race-parallel", r.N(300, 6000), ev.Opt{Bin: "race", Procs: 2, Workers: 8, AlwaysLog: true, HangViolation: true, MaxCaseSeconds: 120}, base64Case)
 	r.Cases("digest/bigstream", r.N(24, 1000), hv, bigStreamCase)
 	r.Cases("ipv4/grid", 144, hv, ipv4GridCase)
 	r.Cases("ipv4/stratified", 64, hv, ipv4StratifiedCase)
